@@ -435,16 +435,44 @@ def run(ck):
     # ---- R-SIB version threshold for the PoW nonce ------------------------------------------------
     thresholds = {}
     af = enc_by_type['AnnouncePayload'][0]
+
+    def helper_threshold(f, call):
+        """`helper(version)` where helper is a repository predicate containing `<its parameter> >= constant`: (constant, argument)."""
+        cn = f.nodes[f.strip(call)]
+        if cn['k'] != 'CallExpr' or cn.get('callee') not in P.by_q:
+            return None
+        g_ = P.by_q[cn['callee']][0]
+        for j in g_.walk():
+            c_ = comparison(g_, j)
+            if c_ and c_[0] == '>=' and g_.params and declref(g_, c_[1], g_.params[0]['d']) is not None and const_value(g_, c_[2]) is not None:
+                return const_value(g_, c_[2]), f.call_args(f.strip(call))[0]
+        return None
+    enc_version_arg = None
     for i in af.walk():
         nd = af.nodes[i]
         if nd['k'] == 'VarDecl' and nd.get('n') == 'include_pow' and 'init' in nd:
             c = comparison(af, nd['init'])
             if c and c[0] == '>=':
                 thresholds['encoder'] = (const_value(af, c[2]), af.loc(i))
+                enc_version_arg = c[1]
+            else:
+                ht = helper_threshold(af, nd['init'])
+                if ht:
+                    thresholds['encoder'] = (ht[0], af.loc(i))
+                    enc_version_arg = ht[1]
     for i in dec.walk():
         c = comparison(dec, i)
         if c and c[0] == '>=' and declref(dec, c[1], vdecl) is not None:
             thresholds['decoder'] = (const_value(dec, c[2]), dec.loc(i))
+        elif dec.nodes[i]['k'] == 'CallExpr' and dec.nodes[i].get('callee') in P.by_q:
+            ht = helper_threshold(dec, i)
+            if ht and declref(dec, ht[1], vdecl) is not None:
+                thresholds['decoder'] = (ht[0], dec.loc(i))
+    # the encoder decides on the version it actually writes: the clamped local, never the caller's raw message.version
+    raw_ok = enc_version_arg is not None and not any(af.nodes[j]['k'] == 'MemberExpr' and (af.nodes[j].get('m') or '').endswith('Message::version') for j in af.walk(enc_version_arg))
+    ck.ob('C15.sib', 'C15.sib/encoder-decides-on-written-version', raw_ok, af.loc(),
+          'whether encode() appends the PoW nonce is decided from the clamped version it writes into byte 0, not from message.version as passed in '
+          '(an out-of-range version is clamped to 4 but would still be judged by its raw value)')
     PN = ck.prog(['src/core/Node.cpp'])
     for q, key in (('ephemeralnet::Node::verify_announce_pow', 'verify_announce_pow'), ('ephemeralnet::Node::deliver_manifest', 'deliver_manifest')):
         g = PN.fn(q)
@@ -571,6 +599,8 @@ def run(ck):
           'decode() refuses a frame only because it is too short, its version is unsupported, or the payload parser refused it'
           + ('' if not bad_ref else ' — other cause: `%s`' % bad_ref[0][1]))
 
+    _every_field_on_every_accept(ck, P)
+
     # ---- the codec keeps no state between calls ---------------------------------------------------------------------------------
     from props.C19 import impure_sites
     for f_ in (enc, dec, P.fn(NS + 'encode_signed'), P.fn(NS + 'decode_signed')) + tuple(f for f in P.fns if f.q.startswith(ANON) and f.file.endswith('Message.cpp')):
@@ -640,3 +670,39 @@ def _not_verbatim(f, root, P=None, depth=0):
 
 def short_(q):
     return (q or '').replace('ephemeralnet::', '').replace('(anonymous namespace)::', '')
+
+
+def _every_field_on_every_accept(ck, P):
+    """In the payload parsers, every accepting return of a case is reached only after each field that the case assigns anywhere has
+    been assigned: no early `return Payload{payload}` hands back a partly default-initialised payload."""
+    from sa.paths import must_precede
+    from sa.flow import field_accesses
+    n = 0
+    for q in (AN + 'decode_payload_v1', AN + 'parse_announce_payload'):
+        f = P.fn(q)
+        ck.touch(f)
+        # group by the local payload object: decl id -> {field: [write nodes]}
+        objs = {}
+        for i, m_, w_ in field_accesses(f):
+            if not w_:
+                continue
+            base = [f.nodes[j] for j in f.walk(i) if f.nodes[j]['k'] == 'DeclRefExpr' and f.nodes[j].get('dk') == 'Var']
+            if not base or not m_.startswith(NS) or 'Payload::' not in m_:
+                continue
+            objs.setdefault(base[-1]['d'], {}).setdefault(m_, []).append(i)
+        for d_, fields in sorted(objs.items()):
+            rets = [r for r in f.walk() if f.nodes[r]['k'] == 'ReturnStmt' and 'nullopt' not in f.text(r) and
+                    any(f.nodes[j]['k'] == 'DeclRefExpr' and f.nodes[j].get('d') == d_ for j in f.walk(r))]
+            for m_, writes in sorted(fields.items()):
+                n += 1
+                ws = set(writes)
+                pds = {p_['d'] for p_ in f.params if (p_.get('t') or '').replace('const ', '') == 'bool'}
+
+                def flag_off(fact, f=f, pds=pds):
+                    # a field that exists only in some wire versions is selected by a bool parameter of the parser (include_pow)
+                    kind, node, val = fact
+                    return kind == 'bool' and val is False and f.nodes[node]['k'] == 'DeclRefExpr' and f.nodes[node].get('d') in pds
+                late = must_precede(f, rets, lambda e, ws=ws: e in ws or any(f.is_in(w, e) for w in ws), bypass=flag_off) if rets else []
+                ck.ob('C15.decode', 'C15.decode/assigned-before-accept/%s' % m_.replace(NS, ''), not late, f.loc(late[0][0]) if late else f.loc(writes[0]),
+                      'every return of the decoded payload is reached only after %s was assigned from the wire' % m_.replace(NS, ''), late[0][1] if late else None)
+    ck.floor('C15.decode', 'payload fields assigned by the parsers', n, 17)
